@@ -138,7 +138,7 @@ mod verif_c20_fold {
     /// Thorough tier: 4 groups, the 4 adjacent-transposition + rotation generators of S4.
     #[kani::proof]
     #[kani::unwind(6)]
-    fn c20_canon_order_independent_4() {
+    fn c20_canon4_order_independent() {
         let (a, b, c, d) = (conf(), conf(), conf(), conf());
         let s = canon(&[a, b, c, d]);
         assert!(same_bits(&s, &canon(&[b, a, c, d])), "OBL:C20.fold.order_independent");
